@@ -925,6 +925,7 @@ def run(rep, tier):
     rep.rule('R12b', 'first-in-path labels for every visited node including the root', floor=1)
     rep.rule('R12g', 'first-in-path label values', floor=1)
     rep.rule('R02h', 'relaxation contract of the searches (lex_dijkstra among them)', floor=4)
+    rep.rule('R07t', 'the set algorithms of the label comparator run over sorted ranges (the last tie-break rung)', floor=1)
     rep.rule('R12c', 'update sites of lex_dijkstra store label, distance and predecessor consistently', floor=2)
     rep.rule('R12d', 'label extension by one edge', floor=2)
     rep.rule('R12e', 'tree nodes and parent links follow the predecessor map', floor=2)
@@ -938,6 +939,7 @@ def run(rep, tier):
     rep.rule('R07k', 'numeric_limits<T>::infinity() only for floating-point T (0 for integral weight types: every distance collapses to 0)', floor=0)
     for prog in progs.values():
         c07.r07k(rep, prog, only_files=('lex_dijkstra', 'detail/util.hpp', 'sptrees', 'detail/dijkstra'))
+        c07.r07t(rep, prog, only_files=('lex_dijkstra', 'sptrees'))
         check_comparators(rep, prog)
         check_first_in_path(rep, prog)
         check_label_values(rep, prog)
